@@ -10,7 +10,7 @@ import sys
 from . import core, driver
 
 CHECKS = {
-    "C16": {"module": "c16", "quick_runs": 1600, "quick_budget": 170, "thorough_budget": 1800},
+    "C16": {"module": "c16", "quick_runs": 1600, "quick_budget": 170, "thorough_budget": 2100},
     "C06": {"module": "c06", "quick_runs": 480, "quick_budget": 170, "thorough_budget": 600},
     "C15": {"module": "c15", "quick_runs": 480, "quick_budget": 170, "thorough_budget": 600},
     "C13": {"module": "c13", "quick_runs": 960, "quick_budget": 170, "thorough_budget": 600},
